@@ -27,29 +27,32 @@ Theorem C17_tr_lengths_never_13 : forall T (S : Scalar T) (l : list (trc (T:=T))
 Proof. intros T S l r H. eapply stage_trs_lengths; [exact H|]. intros p []. Qed.
 Print Assumptions C17_tr_lengths_never_13.
 
-(* TRCL=(13 entries) and *TRCL=(13 entries), m != 1, as the first keyword of
-   the options of any cell of any deck (e = the keyword token, starred or not) *)
-Theorem C17_inline_trcl_m_rejected : forall T (S : Scalar T) (d : deckm (T:=T)) c e ps rest,
-  In c (d_cells d) -> c_toks c = e :: ps ++ rest ->
+(* TRCL=(13 entries) and *TRCL=(13 entries), m != 1, in the options of any cell
+   of any deck (e = the keyword token, starred or not), behind any options
+   [pre] the keyword loop steps over (IMP:x=v, U=n, LAT=1|2, non-keywords) *)
+Theorem C17_inline_trcl_m_rejected : forall T (S : Scalar T) (d : deckm (T:=T)) c
+    (pre : list (tok (T:=T))) n e ps rest,
+  In c (d_cells d) -> c_toks c = (pre ++ e :: ps ++ rest)%list -> skippable pre n ->
   prefix "imp" (tsp e) = false -> contains_sub "fill" (tsp e) = false ->
   contains_sub "lat" (tsp e) = false -> contains_sub "trcl" (tsp e) = true ->
   forallb numeric_lead ps = true -> forallb (fun p => float_lit (tsp p)) ps = true ->
   stops rest -> List.length ps = 13%nat ->
   seqb S (last (map tval ps) (s1 S)) (s1 S) = false ->
   is_ok (validate S d) = false.
-Proof. exact @run_inline_trcl_m_rejected. Qed.
+Proof. exact @run_inline_trcl_m_rejected_anywhere. Qed.
 Print Assumptions C17_inline_trcl_m_rejected.
 
 (* FILL=n (13 entries) and *FILL=n (13 entries), m != 1 *)
-Theorem C17_inline_fill_m_rejected : forall T (S : Scalar T) (d : deckm (T:=T)) c e u ps rest,
-  In c (d_cells d) -> c_toks c = e :: u :: ps ++ rest ->
+Theorem C17_inline_fill_m_rejected : forall T (S : Scalar T) (d : deckm (T:=T)) c
+    (pre : list (tok (T:=T))) n e u ps rest,
+  In c (d_cells d) -> c_toks c = (pre ++ e :: u :: ps ++ rest)%list -> skippable pre n ->
   prefix "imp" (tsp e) = false -> contains_sub "fill" (tsp e) = true ->
   has_colon u = false -> float_lit (tsp u) = true ->
   forallb numeric_lead ps = true -> forallb (fun p => float_lit (tsp p)) ps = true ->
   stops rest -> List.length ps = 13%nat ->
   seqb S (last (map tval ps) (s1 S)) (s1 S) = false ->
   is_ok (validate S d) = false.
-Proof. exact @run_inline_fill_m_rejected. Qed.
+Proof. exact @run_inline_fill_m_rejected_anywhere. Qed.
 Print Assumptions C17_inline_fill_m_rejected.
 
 (* the same at the level of the two keyword functions, wherever the keyword
@@ -225,15 +228,16 @@ Print Assumptions C17_facet_zero_refuted.
 
 (* ---------------- FILL arrays ---------------- *)
 
-Theorem C17_fill_array_short_rejected : forall T (S : Scalar T) (d : deckm (T:=T)) c e first rs nums b,
-  In c (d_cells d) -> c_toks c = e :: first :: rs ++ nums ->
+Theorem C17_fill_array_short_rejected : forall T (S : Scalar T) (d : deckm (T:=T)) c
+    (pre : list (tok (T:=T))) n e first rs nums b,
+  In c (d_cells d) -> c_toks c = (pre ++ e :: first :: rs ++ nums)%list -> skippable pre n ->
   prefix "imp" (tsp e) = false -> contains_sub "fill" (tsp e) = true ->
   has_colon first = true -> forallb has_colon rs = true ->
   Forall (fun t => has_colon t = false) nums -> Forall (plain (T:=T)) nums ->
   parse_ranges (map tsp (first :: rs)) = Ok b ->
   (Z.of_nat (List.length nums) < bounds_size b)%Z ->
   is_ok (validate S d) = false.
-Proof. exact @run_fill_array_short_rejected. Qed.
+Proof. exact @run_fill_array_short_rejected_anywhere. Qed.
 Print Assumptions C17_fill_array_short_rejected.
 
 (* whatever parse_fill_kw accepts holds exactly as many universes as the ranges *)
@@ -280,7 +284,38 @@ Theorem C17_latopt_malformed_rejected : forall T (S : Scalar T) (d : deckm (T:=T
 Proof. exact @run_latopt_malformed_rejected. Qed.
 Print Assumptions C17_latopt_malformed_rejected.
 
+(* ---------------- summary ---------------- *)
+
+(* every run that finishes normally is free of: malformed --lattice arguments,
+   13-entry TR cards with m != 1, unknown mnemonics, macrobody / elementary
+   arities outside the accepted tables, IMP cards of unequal lengths,
+   mixed-sign material cards -- wherever the card sits *)
+Theorem C17_finished_run_is_clean : forall T (S : Scalar T) (d : deckm (T:=T)),
+  validate S d = Ok tt ->
+  (forall o, In o (d_latopts d) -> latopt_wf o = true) /\
+  (forall t, In t (d_trs d) -> List.length (tr_entries t) = 13%nat ->
+             seqb S (last (tr_entries t) (s1 S)) (s1 S) = true) /\
+  (forall s, In s (d_surfs d) ->
+     (In (sf_mn s) macros /\ In (List.length (sf_params s)) (macro_arities (sf_mn s))) \/
+     (In (sf_mn s) elementary /\ elem_accepts (sf_mn s) (List.length (sf_params s)) = true)) /\
+  (forall rows, expand_cards (d_imps d) = Ok rows ->
+     forall r1 r2, In r1 rows -> In r2 rows -> List.length r1 = List.length r2) /\
+  (d_skipcomp d = false ->
+   forall m l, In m (d_mats d) -> mat_pairs m = Ok l ->
+     forall p q, In p l -> In q l -> frac_negative (snd p) = frac_negative (snd q)).
+Proof. exact @finished_run_is_clean. Qed.
+Print Assumptions C17_finished_run_is_clean.
+
 (* ---------------- non-vacuity ---------------- *)
+
+(* options the keyword loop steps over: IMP:N=1 U=2 in front of a keyword *)
+Example skippable_example : forall T (S : Scalar T),
+  skippable [tk S "imp:n" 0; tk S "1" 1; tk S "u" 0; tk S "2" 2]%Z 2.
+Proof.
+  intros. apply sk_imp; [reflexivity|reflexivity|].
+  apply sk_u; try reflexivity. apply sk_nil.
+Qed.
+
 
 (* the doctest arguments are well formed / malformed as the code says *)
 Example latopt_examples :
@@ -316,6 +351,15 @@ Proof. vm_compute. reflexivity. Qed.
 Example ex_deck_facet_rejected : validate FS (ex_deck 1 [5]%Z (Some 4%nat)) = Err ECellConversion.
 Proof. vm_compute. reflexivity. Qed.
 Example ex_deck_facet_zero_finishes : validate FS (ex_deck 1 [5]%Z (Some 0%nat)) = Ok tt.
+Proof. vm_compute. reflexivity. Qed.
+(* a facet beyond the range in a cell of importance 0 is never looked at *)
+Definition ex_deck_skipped : deckm (T:=PrimFloat.float) :=
+  let d := ex_deck 1 [5]%Z None in
+  mkDeck (d_latopts d) (d_surfs d) (d_trs d) (d_imps d)
+         [mkCellc 1%Z [mkLit 1%Z None] [] [ex_tok "imp:n" (sofZ FS 0) 0%Z; ex_tok "1" (sofZ FS 1) 1%Z];
+          mkCellc 2%Z [mkLit 2%Z (Some 9%nat)] [] [ex_tok "imp:n" (sofZ FS 0) 0%Z; ex_tok "0" (sofZ FS 0) 0%Z]]
+         (d_mats d) false.
+Example ex_deck_skipped_finishes : validate FS ex_deck_skipped = Ok tt.
 Proof. vm_compute. reflexivity. Qed.
 Example ex_deck_surplus_finishes : validate FS (ex_deck 1 [5; 6]%Z None) = Ok tt.
 Proof. vm_compute. reflexivity. Qed.
